@@ -104,6 +104,9 @@ pub fn lean_ident(s: &str) -> String {
     const KW: &[&str] = &["from", "at", "end", "then", "do", "fun", "in", "open", "show", "have", "with", "type", "instance", "local", "section", "variable", "Type", "mut"];
     if KW.contains(&s) {
         format!("«{}»", s)
+    } else if !s.is_empty() && s.chars().all(|c| c.is_ascii_digit()) {
+        // builder N: the field of a newtype (`self.0`)
+        format!("_{}", s)
     } else {
         s.to_string()
     }
@@ -169,6 +172,16 @@ impl<'a> FnTr<'a> {
                 }
                 if let Some(a) = self.reg.aliases.get(&name) {
                     return Ok(a.clone());
+                }
+                // builder N: `Result<T, E>` whose error value is never inspected: `Ok(x)` = `some x`,
+                // `Err(_)` = `none` (a pattern that binds the error does not translate)
+                if name == "Result" {
+                    if let PathArguments::AngleBracketed(ab) = &last.arguments {
+                        if let Some(GenericArgument::Type(inner)) = ab.args.first() {
+                            return Ok(Ty::Opt(Box::new(self.ty(inner)?)));
+                        }
+                    }
+                    return Err("bad Result".into());
                 }
                 if self.reg.enums.contains_key(&name) || self.reg.structs.contains_key(&name) {
                     return Ok(Ty::Named(name));
@@ -697,7 +710,9 @@ impl<'a> FnTr<'a> {
         let files = self.reg.files.clone().ok_or(format!("unknown method {}", key))?;
         let (sig, body) = find_inherent_method(&files, tn, name).ok_or(format!("unknown method {}", key))?;
         self.reg.dyn_stack.borrow_mut().push(key.clone());
-        let lean_name = format!("{}.{}", tn, name);
+        // builder N: a getter named like the field it reads would clash with the structure projection
+        let clash = self.reg.structs.get(tn).map(|fs| fs.iter().any(|(f, _)| f == name)).unwrap_or(false);
+        let lean_name = if clash { format!("{}.{}_fn", tn, name) } else { format!("{}.{}", tn, name) };
         let mut sub = FnTr {
             reg: self.reg,
             self_ty: Some(tn.to_string()),
@@ -1125,7 +1140,7 @@ impl<'a> FnTr<'a> {
             Pat::Paren(pp) => self.pat(&pp.pat, ty, env),
             Pat::TupleStruct(ts) => {
                 let name = path_str(&ts.path);
-                if name == "Some" {
+                if name == "Some" || name == "Ok" {
                     let inner = match ty {
                         Ty::Opt(t) => (**t).clone(),
                         _ => return Err(format!("Some pattern on non-option {:?}", ty)),
@@ -1560,6 +1575,13 @@ impl<'a> FnTr<'a> {
                         let fty = fields.iter().find(|(n, _)| *n == fname).ok_or(format!("no field {} in {}", fname, sn))?.1.clone();
                         Ok((format!("{}.{}", paren(&b), lean_ident(&fname)), fty))
                     }
+                    (Member::Unnamed(i), Ty::Named(sn)) => {
+                        // builder N: the field of a newtype
+                        let fields = self.reg.structs.get(sn).ok_or(format!("field access on non-struct {}", sn))?;
+                        let fname = i.index.to_string();
+                        let fty = fields.iter().find(|(n, _)| *n == fname).ok_or(format!("no field {} in {}", fname, sn))?.1.clone();
+                        Ok((format!("{}.{}", paren(&b), lean_ident(&fname)), fty))
+                    }
                     (Member::Unnamed(i), Ty::Tuple(ts)) => {
                         let k = i.index as usize;
                         let n = ts.len();
@@ -1615,6 +1637,9 @@ impl<'a> FnTr<'a> {
                 let fields = self.reg.structs.get(&name).ok_or(format!("unknown struct {}", name))?.clone();
                 let mut parts = vec![];
                 for fv in &s.fields {
+                    if cfg_disabled(&fv.attrs) {
+                        continue;
+                    }
                     let fname = match &fv.member {
                         Member::Named(i) => i.to_string(),
                         _ => return Err("tuple struct literal".into()),
@@ -1744,6 +1769,32 @@ impl<'a> FnTr<'a> {
             let (b, tb) = self.ex(&c.args[1], env, st, Some(ta.clone()))?;
             let t = unify(&ta, &tb)?;
             return Ok((format!("({} {} {})", segs[segs.len() - 1], paren(&a), paren(&b)), t));
+        }
+        // builder N: `T::from(x)` for a user type with a registered `impl From<uN> for T`
+        if segs.len() >= 2 && segs[segs.len() - 1] == "from" && c.args.len() == 1 && int_ty(&segs[segs.len() - 2]).is_none() {
+            let tn = segs[segs.len() - 2].clone();
+            let cands: Vec<(String, FnSig)> = self.reg.fns.iter().filter(|(k, _)| k.ends_with(&format!("::into_{}", tn))).map(|(k, v)| (k.clone(), v.clone())).collect();
+            if cands.len() == 1 {
+                let sig = cands[0].1.clone();
+                let (a, _) = self.ex(&c.args[0], env, st, Some(sig.params[0].1.clone()))?;
+                let term = format!("{} {}", sig.lean, paren(&a));
+                return if sig.fallible { Ok((self.act(st, term), sig.ret.clone())) } else { Ok((format!("({})", term), sig.ret.clone())) };
+            }
+        }
+        // builder N: `T::default()` of a modelled struct that derives `Default`
+        if segs.len() >= 2 && segs[segs.len() - 1] == "default" && c.args.is_empty() {
+            let tn = segs[segs.len() - 2].clone();
+            if let Some(fields) = self.reg.structs.get(&tn).cloned() {
+                let files = self.reg.files.clone().ok_or("default(): no files")?;
+                if !derives_default(&files, &tn) {
+                    return Err(format!("{}::default(): the struct does not derive Default", tn));
+                }
+                let mut parts = vec![];
+                for (f, t) in &fields {
+                    parts.push(format!("{} := {}", lean_ident(f), default_term(t).ok_or(format!("{}::default(): field {} has no modelled default", tn, f))?));
+                }
+                return Ok((format!("({{ {} }} : {})", parts.join(", "), tn), Ty::Named(tn)));
+            }
         }
         // builder L: `heapless::Vec::new()`
         if segs.len() >= 2 && segs[segs.len() - 2] == "Vec" && segs[segs.len() - 1] == "new" && c.args.is_empty() {
@@ -1900,7 +1951,9 @@ impl<'a> FnTr<'a> {
                 }
             }
             Ty::Opt(inner) => match name.as_str() {
-                "is_some" => Ok((format!("{}.isSome", paren(&r)), Ty::Bool)),
+                "is_some" | "is_ok" => Ok((format!("{}.isSome", paren(&r)), Ty::Bool)),
+                // builder N: `Option<T>` → `Option<&T>`: the same value in the model
+                "as_ref" | "as_mut" | "copied" | "cloned" => Ok((r, tr.clone())),
                 "is_none" => Ok((format!("{}.isNone", paren(&r)), Ty::Bool)),
                 "unwrap_or" => {
                     let (a, _) = self.ex(&m.args[0], env, st, Some((**inner).clone()))?;
@@ -2325,6 +2378,41 @@ fn assigned_roots(e: &Expr, muts: &[String]) -> Vec<String> {
     let mut v = V { muts, out: vec![] };
     syn::visit::visit_expr(&mut v, e);
     v.out
+}
+
+/// builder N: does the struct `tn` of the unit's files carry `#[derive(.. Default ..)]`?
+fn derives_default(files: &[File], tn: &str) -> bool {
+    use quote::ToTokens;
+    fn walk(items: &[Item], tn: &str) -> bool {
+        for it in items {
+            match it {
+                Item::Struct(s) if s.ident == tn => {
+                    return s.attrs.iter().any(|a| a.path().is_ident("derive") && a.meta.to_token_stream().to_string().split(|c: char| !c.is_alphanumeric()).any(|w| w == "Default"));
+                }
+                Item::Mod(m) => {
+                    if let Some((_, items)) = &m.content {
+                        if walk(items, tn) {
+                            return true;
+                        }
+                    }
+                }
+                _ => {}
+            }
+        }
+        false
+    }
+    files.iter().any(|f| walk(&f.items, tn))
+}
+
+/// builder N: `Default::default()` of a modelled type
+fn default_term(t: &Ty) -> Option<String> {
+    Some(match t {
+        Ty::Int(_) | Ty::IntLit => "0".to_string(),
+        Ty::Bool => "false".to_string(),
+        Ty::Opt(_) => "none".to_string(),
+        Ty::HVec(..) => "[]".to_string(),
+        _ => return None,
+    })
 }
 
 /// items of cargo features the verification harness does not enable
